@@ -275,6 +275,7 @@ type xProject struct {
 		Deps []xDep `xml:"dependencies>dependency"`
 	} `xml:"profiles>profile"`
 	ParentVersion string `xml:"parent>version"`
+	ParentPath    string `xml:"parent>relativePath"`
 }
 
 func readXProject(path string) (*xProject, error) {
@@ -297,9 +298,12 @@ func readPomReqs(dir string) (map[string]string, error) {
 		return nil, err
 	}
 	var parent *xProject
-	if _, err := os.Stat(filepath.Join(dir, "parent", "pom.xml")); err == nil {
-		if parent, err = readXProject(filepath.Join(dir, "parent", "pom.xml")); err != nil {
-			return nil, err
+	if rp := strings.TrimSpace(proj.ParentPath); rp != "" {
+		pp := filepath.Join(dir, "project", rp)
+		if _, err := os.Stat(pp); err == nil {
+			if parent, err = readXProject(pp); err != nil {
+				return nil, err
+			}
 		}
 	}
 	pprops := map[string]string{}
@@ -502,6 +506,14 @@ func features(w *World, ups []result.PackageUpdate, vulns ...[]result.Vuln) stri
 	}
 	if t := universeTraits(w); t != "" {
 		f = append(f, t)
+	}
+	if w.Sys == "maven" {
+		if w.Manifest.Parent != nil && strings.Contains(w.Manifest.parentDir(), "@") {
+			f = append(f, "at-in-parent-path")
+		}
+		if p := w.Manifest.Pom; p != nil && p.EmptyMgmt && len(p.Mgmt) == 0 {
+			f = append(f, "empty-management-element")
+		}
 	}
 	sort.Strings(f)
 	out := f[:0]
